@@ -143,6 +143,7 @@ def probes(ctx):
 def run(ctx):
     ctx.search('invariants', cases, prop, ctx.pick(24000, 500000))
     ctx.search('metamorphic', cases, metamorphic_prop, ctx.pick(8000, 150000))
+    orch.small_sweep(ctx, lambda sc, rec: prop(sc, rec))
     probes(ctx)
 
 
